@@ -1092,9 +1092,16 @@ func genFunctionWrapper(n *node) func(*frame) reflect.Value {
 			recv = copyValue(recvValue(f, def.types[numRet].Kind()))
 		}
 
+		pf := f // Parent frame of the function.
+		if isDefer && def.kind == funcLit {
+			// A deferred function literal refers, as any closure (see getFunc), to
+			// the variables of f existing when the defer statement is executed.
+			pf = f.clone()
+		}
+
 		return reflect.MakeFunc(funcType, func(in []reflect.Value) []reflect.Value {
 			// Allocate and init local frame. All values to be settable and addressable.
-			fr := newFrame(f, len(def.types), f.runid())
+			fr := newFrame(pf, len(def.types), f.runid())
 			d := fr.data
 			for i, t := range def.types {
 				d[i] = reflect.New(t).Elem()
@@ -1130,6 +1137,13 @@ func genFunctionWrapper(n *node) func(*frame) reflect.Value {
 			}
 
 			// Interpreter code execution.
+			if pf != f {
+				// Let recover in the function operate on the panic of f.
+				pf.recovered = f.recovered
+				runCfg(start, fr, def, n)
+				f.recovered = pf.recovered
+				return fr.data[:numRet]
+			}
 			runCfg(start, fr, def, n)
 
 			return fr.data[:numRet]
